@@ -22,6 +22,9 @@ TEMPLATES = {
     "droplic": "{% for copyright_line in copyright_lines %}\n{{ copyright_line }}\n{% endfor %}\n\nAll rights reserved.\n",
     "dropcop": "{% for expression in spdx_expressions %}\nSPDX-License-Identifier: {{ expression }}\n{% endfor %}\n",
     "dropall": "Licensed under the terms in the LICENSE file.\n",
+    # keeps every licence but only the FIRST copyright line: loses information exactly when a file ends up with two holders
+    "firstcop": "{% for copyright_line in copyright_lines[:1] %}\n{{ copyright_line }}\n{% endfor %}\n\n"
+                "{% for expression in spdx_expressions %}\nSPDX-License-Identifier: {{ expression }}\n{% endfor %}\n",
 }
 COMMENTED = ("# Example header\n#\n{% for copyright_line in copyright_lines %}\n# {{ copyright_line }}\n{% endfor %}\n"
              "{% for contributor_line in contributor_lines %}\n# SPDX-FileContributor: {{ contributor_line }}\n{% endfor %}\n#\n"
@@ -169,7 +172,7 @@ def req_record(req: dict, flavour: dict) -> dict:
     return {"cop": cop, "verb": [asc(v) for v in req.get("verb", [])], "lic": list(req["lic"]), "con": [asc(c) for c in req["con"]],
             "merge": bool(flavour.get("merge")), "skipExisting": bool(flavour.get("skip_existing")),
             "skipUnrecognised": bool(flavour.get("skip_unrecognised")),
-            "rendersCon": flavour.get("template") not in ("nocon", "droplic", "dropcop", "dropall", "pydrop", "pydroplic", "pydropcop", "literal", "pytwoblocks"),
+            "rendersCon": flavour.get("template") not in ("nocon", "droplic", "dropcop", "dropall", "pydrop", "pydroplic", "pydropcop", "literal", "pytwoblocks", "firstcop"),
             "noReplace": bool(flavour.get("no_replace")),
             "twoBlocks": flavour.get("template") == "pytwoblocks"}     # an already-commented template with an EMPTY line between its blocks
 
